@@ -6,10 +6,9 @@ import (
 	"github.com/pojntfx/stfs/pkg/config"
 )
 
-// KNOWN FINDING (open) C02-otrunc-takes-effect-only-on-write: Create on an existing file does not truncate
-// it unless something is written through the handle. This test documents the behaviour: it PASSES while
-// the defect is present.
-func TestKnown_C02_OTruncOnlyOnWrite(t *testing.T) {
+// fixed: C02-otrunc-takes-effect-only-on-write (d0cf1c6): Create on an existing file did not truncate it unless
+// something was written through the handle.
+func TestFinding_C02_CreateTruncatesExistingFile(t *testing.T) {
 	e := newFS(t, "", false, config.PipeConfig{})
 	e.init(t)
 	f := e.stfs
@@ -23,10 +22,10 @@ func TestKnown_C02_OTruncOnlyOnWrite(t *testing.T) {
 	if err != nil {
 		t.Fatal(err)
 	}
-	if st.Size() == 0 {
-		t.Skip("defect no longer present: Create truncated the file")
+	if st.Size() != 0 {
+		t.Errorf("size after Create+Close on an existing 5-byte file: %d, want 0", st.Size())
 	}
-	if st.Size() != 5 {
-		t.Errorf("unexpected size %d", st.Size())
+	if c, _ := readFile(t, f, "/f"); c != "" {
+		t.Errorf("content after Create+Close: %q, want empty", c)
 	}
 }
